@@ -26,14 +26,13 @@ def case_strategy():
     def s(draw):
         rc = draw(geo.geometry(max_nx=5, max_ny=5, max_nz=5, shipped=True, ops=True, with_surfaces=True,
                                with_wells=False, header=True, max_shipped_cols=30, relayer=True))
-        rc.get('header', {}).pop('unit', None)
         then = draw(st.sampled_from([None, None, 'translate', 'translate', 'rotate', 'same']))
         if then == 'translate':
             then = ['translate', [draw(st.sampled_from([0.0, 12.5, -300.0])), draw(st.sampled_from([0.0, 40.0])),
                                   draw(st.sampled_from([0.0, 7.25, -55.0, 120.0]))]]
         elif then == 'rotate': then = ['rotate', draw(st.sampled_from([30.0, 90.0, -45.0]))]
         elif then: then = [then]
-        return {'rc': rc, 'blockmap': draw(st.sampled_from([None, None, 'all', 'some'])), 'then': then}
+        return {'rc': rc, 'blockmap': draw(st.sampled_from([None, None, 'all', 'some', 'swap', 'cycle', 'chain'])), 'then': then}
     return s()
 
 
@@ -85,9 +84,17 @@ def verify(case, R, g):
     names = list(g.block_name_list)
     bm = {}
     if case.get('blockmap'):
+        kind = case['blockmap']
         for i, n in enumerate(names):
-            if case['blockmap'] == 'all' or i % 3 == 0:
+            if kind == 'all' or (kind == 'some' and i % 3 == 0):
                 bm[n] = 'Z%04d' % i
+            # mappings whose values are themselves block names of the geometry (applied once, not until nothing changes)
+            elif kind == 'swap' and i % 2 == 0 and i + 1 < len(names) and i % 3 != 1:
+                bm[n] = names[i + 1]; bm[names[i + 1]] = n
+            elif kind == 'cycle':
+                bm[n] = names[(i + 1) % len(names)]
+            elif kind == 'chain' and i % 4 == 0 and i + 1 < len(names):
+                bm[n] = names[i + 1]; bm[names[i + 1]] = 'Z%04d' % i
     mp = lambda n: bm.get(n, n)
     R.label('blockmap:%s' % case.get('blockmap'))
     with R.lib('fromgeo'):
